@@ -25,6 +25,14 @@ theorem Res.bind_eq_ok {α β : Type} {x : Res α} {f : α → Res β} {b : β}
   | err e => exact nomatch h
   | panic m => exact nomatch h
 
+/-- observers used by the non-vacuity examples (`Res Val` has no decidable equality). -/
+def Res.isPanic {α : Type} : Res α → Bool | .panic _ => true | _ => false
+def Res.isOk {α : Type} : Res α → Bool | .ok _ => true | _ => false
+def Res.isErr {α : Type} : Res α → Bool | .err _ => true | _ => false
+
+theorem Res.isPanic_iff {α : Type} (r : Res α) : r.isPanic = true ↔ ∃ m, r = .panic m := by
+  cases r <;> simp [Res.isPanic]
+
 /-! ### C02 (typed layer): the decidable safety condition -/
 
 /-- the kind can be handed to `decK` without reaching one of its panicking branches
@@ -256,5 +264,181 @@ theorem typedNoPanic_zero (S : Schema) : TypedNoPanic S 0 := by
   · intro d tag c ver _; rw [decDyn]; exact Res.noPanic_err _
   · intro code id tag c ver _; rw [decCustom]; exact Res.noPanic_err _
   · intro fmt c ver _; rw [decKeyValue]; exact Res.noPanic_err _
+
+theorem typedNoPanic_succ (S : Schema) (hS : S.DecodeSafe) (fuel : Nat) (ih : TypedNoPanic S fuel) :
+    TypedNoPanic S (fuel + 1) := by
+  have ihK := ih.decK
+  have ihS := ih.decStruct
+  have ihL := ih.decList
+  have ihF := ih.decFields
+  have ihO := ih.decOpt
+  have ihD := ih.decDyn
+  have ihC := ih.decCustom
+  have ihV := ih.decKeyValue
+  have sBytes : Kind.leafSafe .bytes = true := rfl
+  have sText : Kind.leafSafe .text = true := rfl
+  have sBool : Kind.leafSafe .bool = true := rfl
+  have sAttrs : ∀ i, Kind.leafSafe (.slice (.struct i)) = true := fun _ => rfl
+  constructor
+  · -- decK
+    intro k tag c ver hk
+    cases k
+    all_goals first | exact absurd hk (by decide) | skip
+    all_goals rw [decK]
+    case ptr k => have := Kind.leafSafe_ptr hk; np_auto
+    case slice k => have := Kind.leafSafe_slice hk; np_auto
+    case struct id =>
+      have hd := hS.structDef id
+      unfold StructDef.decSafe at hd
+      split
+      · rename_i hc; rw [if_pos hc] at hd; exact ihC _ _ _ _ _ hd
+      · rename_i hc; rw [if_neg hc] at hd; exact ihS _ _ _ _ hd
+    all_goals np_auto
+  · -- decStruct
+    intro fields tag c ver hf
+    rw [decStruct]
+    np_auto
+  · -- decList
+    intro k tag c ver hk
+    rw [decList]
+    np_auto
+  · -- decFields
+    intro fields c ver hf
+    cases fields with
+    | nil => rw [decFields]; exact Res.noPanic_ok _; exact fun h => nomatch h
+    | cons f fs =>
+      rw [decFields]
+      rw [List.all_cons, Bool.and_eq_true] at hf
+      obtain ⟨h1, h2⟩ := hf
+      unfold Field.decSafe at h1
+      rw [Bool.and_eq_true] at h1
+      have hdt : f.dynTag = false := by simpa using h1.2
+      have hk := h1.1
+      rw [hdt, if_neg (by decide)]
+      np_auto
+  · -- decOpt
+    intro k tag c ver hk
+    rw [decOpt]
+    np_auto
+  · -- decDyn
+    intro d tag c ver hd
+    rw [decDyn]
+    have hk := hS.dyn hd
+    have hptr : ∀ k', (S.dyn d).kind = .ptr k' → Kind.leafSafe k' = true :=
+      fun k' h => Kind.leafSafe_ptr (h ▸ hk)
+    np_auto
+  · -- decCustom
+    intro code id tag c ver hc
+    rw [decCustom]
+    unfold customSafe at hc
+    by_cases h1 : code = Cust.unknownPayload
+    · rw [if_pos h1]; np_auto
+    rw [if_neg h1]
+    rw [if_neg h1] at hc
+    refine Res.noPanic_bind' (Cur.expect_noPanic _ _ _) (fun it => ?_)
+    refine Res.noPanic_bind' (Cur.start_noPanic _) (fun c0 => ?_)
+    refine Res.noPanic_bind' ?_ (fun _ => by np_auto)
+    have hpd := hS.payloadDyn
+    have had := hS.attrDyn
+    have hod : ∀ ot d, S.objectDyn ot = some d → d < S.dyns.length := fun _ _ h => hS.objectDyn h
+    by_cases h2 : code = Cust.requestBatchItem
+    · rw [if_pos h2]
+      rw [if_pos h2] at hc
+      simp only [Bool.and_eq_true] at hc
+      obtain ⟨k0, k3⟩ := hc
+      np_auto
+    rw [if_neg h2]
+    rw [if_neg h2] at hc
+    by_cases h3 : code = Cust.responseBatchItem
+    · rw [if_pos h3]
+      rw [if_pos h3] at hc
+      simp only [Bool.and_eq_true] at hc
+      obtain ⟨⟨⟨k0, k2⟩, k3⟩, k7⟩ := hc
+      np_auto
+    rw [if_neg h3]
+    rw [if_neg h3] at hc
+    by_cases h4 : code = Cust.attr
+    · rw [if_pos h4]
+      np_auto
+    rw [if_neg h4]
+    rw [if_neg h4] at hc
+    by_cases h5 : code = Cust.credential
+    · rw [if_pos h5]
+      rw [if_pos h5] at hc
+      simp only [Bool.and_eq_true] at hc
+      obtain ⟨k0, ku⟩ := hc
+      np_auto
+      dsimp only
+      split
+      · rename_i ht
+        have := unionSafe_getD ku (i := (Val.asInt ‹Val›).toNat - 1) (by omega)
+        np_auto
+      · np_auto
+    rw [if_neg h5]
+    rw [if_neg h5] at hc
+    by_cases h6 : code = Cust.keyBlock
+    · rw [if_pos h6]
+      rw [if_pos h6] at hc
+      simp only [Bool.and_eq_true] at hc
+      obtain ⟨⟨⟨⟨⟨k0, k1⟩, k3⟩, k4⟩, k5⟩, ku⟩ := hc
+      np_auto
+    rw [if_neg h6]
+    rw [if_neg h6] at hc
+    by_cases h7 : code = Cust.getResponse
+    · rw [if_pos h7]
+      rw [if_pos h7] at hc
+      np_auto
+    rw [if_neg h7]
+    rw [if_neg h7] at hc
+    by_cases h8 : code = Cust.registerRequest
+    · rw [if_pos h8]
+      rw [if_pos h8] at hc
+      simp only [Bool.and_eq_true] at hc
+      obtain ⟨k0, k1⟩ := hc
+      np_auto
+    rw [if_neg h8]
+    rw [if_neg h8] at hc
+    by_cases h9 : code = Cust.exportResponse
+    · rw [if_pos h9]
+      rw [if_pos h9] at hc
+      simp only [Bool.and_eq_true] at hc
+      obtain ⟨k0, k2⟩ := hc
+      np_auto
+    rw [if_neg h9]
+    rw [if_neg h9] at hc
+    by_cases h10 : code = Cust.importRequest
+    · rw [if_pos h10]
+      rw [if_pos h10] at hc
+      simp only [Bool.and_eq_true] at hc
+      obtain ⟨k2, k3⟩ := hc
+      np_auto
+    rw [if_neg h10] at hc
+    exact absurd hc (by decide)
+  · -- decKeyValue
+    intro fmt c ver ku
+    rw [decKeyValue]
+    have u0 := unionSafe_getD ku (i := 0) (by omega)
+    have u1 := unionSafe_getD ku (i := 1) (by omega)
+    have u2 := unionSafe_getD ku (i := 2) (by omega)
+    have u3 := unionSafe_getD ku (i := 3) (by omega)
+    have u4 := unionSafe_getD ku (i := 4) (by omega)
+    have u5 := unionSafe_getD ku (i := 5) (by omega)
+    have u6 := unionSafe_getD ku (i := 6) (by omega)
+    have u7 := unionSafe_getD ku (i := 7) (by omega)
+    np_auto
+
+theorem typedNoPanic (S : Schema) (hS : S.DecodeSafe) : ∀ fuel, TypedNoPanic S fuel
+  | 0 => typedNoPanic_zero S
+  | fuel + 1 => typedNoPanic_succ S hS fuel (typedNoPanic S hS fuel)
+
+theorem unmarshal_noPanic (S : Schema) (h : S.decodeSafe = true) (d tag : Nat) (bs : Bytes)
+    (hd : d < S.dyns.length) : (unmarshal S d tag bs).NoPanic := by
+  have hS := (S.decodeSafe_iff).1 h
+  have hk := hS.dyn hd
+  have hptr : ∀ k', (S.dyn d).kind = .ptr k' → Kind.leafSafe k' = true :=
+    fun k' h => Kind.leafSafe_ptr (h ▸ hk)
+  have ihK := (typedNoPanic S hS (bs.length + 8)).decK
+  unfold unmarshal
+  np_auto
 
 end Kmip
